@@ -9,7 +9,7 @@ body = open('/verif/asbuilt.md').read()
 kf = json.load(open('/verif/known_findings.json'))['findings']
 fixed = [f for f in kf if f['status'] == 'fixed']
 opened = [f for f in kf if f['status'] == 'open']
-out = [body.rstrip(), '', '### 10.5 Genuine defects repaired in /repo (%d `fix:` commits)' % len(fixed), '',
+out = [body.rstrip(), '', '### 10.5 Genuine defects repaired in /repo (%d entries, %d `fix:` commits)' % (len(fixed), len({c for f in fixed for c in f['commit'].split('+')})), '',
        'Each is one unguarded commit whose message starts `fix:`; the repository\'s test suite, unedited, passes after each (re-run in full after the last one). The check named first is the one that reported it. A fixed entry suppresses nothing: the signature is reported again if it returns.', '',
        '| property | commit | what failed | reported as |', '|---|---|---|---|']
 for f in fixed:
